@@ -88,3 +88,15 @@ PROPS["C17"] = dict(
     assumptions=["TLC checks Surfaces on the model; Exec decides only whether the faulted invocation is reached",
                  "error identity is checked with errors.Is/As against the injected sentinel, ErrTemplateNotFound, *SecurityViolation"],
 )
+
+PROPS["C13"] = dict(
+    level="model_checking",
+    stages=[dict(name="enum", module="MC_C13", cfg={"quick": "MC_C13_quick.cfg", "thorough": "MC_C13_thorough.cfg"},
+                 timeout={"quick": 300, "thorough": 1500})],
+    nontrivial=lambda r: "ndash:0" not in (r.get("tags") or []),
+    rule="corpus of templates covering every tag kind x set D of dashed delimiter sides (all subsets for small templates, "
+         "singletons/pairs/all/all-but-one otherwise) x 6 whitespace styles of the neighbouring text; two real renders per "
+         "case (dashed source, hand-trimmed source) which must agree with each other and with the model; non-trivial = D non-empty",
+    assumptions=["TLC checks on the model that the two formulations coincide for D = {} and that a dash only removes whitespace",
+                 "text pieces are symbolic in Exec and substituted afterwards, so the expectation does not depend on the text content"],
+)
